@@ -147,7 +147,9 @@ def pvl_flavor(
         try:
             pvl.dumps(some_pvl, **decenc)
             encodes = True
-        except (LexerError, ParseError, ValueError) as err:
+        except (LexerError, ParseError, ValueError, TypeError) as err:
+            # The encoders refuse with ValueError or TypeError ("is not
+            # serializable"); either way the text did load.
             logging.error(f"{dialect} encode error {filename} {err}")
             encodes = False
     except (LexerError, ParseError) as err:
